@@ -304,6 +304,9 @@ def run_property(pid, tier, seed):
         for s in inconclusive:
             print("INCONCLUSIVE property=%s %s" % (pid, s))
         return 2
+    if not ev["coverage"]["samples"] or ev["coverage"]["distinct_nontrivial"] < 2:
+        print("INCONCLUSIVE property=%s evidence incomplete: no samples recorded (vlib.Sample) or fewer than 2 distinct non-trivial cases (vlib.NonTrivial)" % pid)
+        return 2
     if ev["coverage"]["evaluations"] == 0:
         print("INCONCLUSIVE property=%s no cases were evaluated" % pid)
         return 2
